@@ -2106,11 +2106,12 @@ def _sink_chosen_calls(stmts, budget):
     while i + 1 < len(stmts):
         S, N = stmts[i], stmts[i + 1]
         i += 1
-        if not (isinstance(S, ast.If) and S.body and S.orelse and isinstance(N, (ast.Assert, ast.Expr, ast.Assign, ast.Return)) and budget[0] > 0):
+        if not (isinstance(S, ast.If) and S.body and S.orelse and isinstance(N, (ast.Assert, ast.Expr, ast.Assign, ast.Return, ast.If)) and budget[0] > 0):
             continue
         if _terminates(S.body) or _terminates(S.orelse):
             continue
-        called = {x.func.id for x in ast.walk(N) if isinstance(x, ast.Call) and isinstance(x.func, ast.Name)}
+        # (for a following `if`, the function must be called in its test: `if not holds(value, limit): reject(...)`)
+        called = {x.func.id for x in ast.walk(N.test if isinstance(N, ast.If) else N) if isinstance(x, ast.Call) and isinstance(x.func, ast.Name)}
 
         def chosen(arm, nm):
             return any(isinstance(a_, ast.Assign) and len(a_.targets) == 1 and isinstance(a_.targets[0], ast.Name) and a_.targets[0].id == nm
@@ -2386,6 +2387,69 @@ def _defaultdict_to_get(fn_node):
     return True
 
 
+_PURE_TEST_CALLS = {"isinstance", "issubclass", "type", "len", "callable", "hasattr", "IsNumber", "id", "bool"}
+
+
+def _forward_test_locals(fn_node):
+    """`same = type(self) == type(other)` ... `if same:`  ->  `if type(self) == type(other):` for a local bound once to a
+    test over names that are never re-bound (parameters, globals), free of attribute reads and of calls other than a few pure
+    builtins: the tests that read the local see the condition itself (guards and facts are then about the operands).
+    Other reads of the local (a `return same`) keep it.  Returns whether anything changed."""
+    stores = {}
+    for x in ast.walk(fn_node):
+        if isinstance(x, ast.Name) and isinstance(x.ctx, (ast.Store, ast.Del)):
+            stores[x.id] = stores.get(x.id, 0) + 1
+        elif isinstance(x, (ast.FunctionDef, ast.AsyncFunctionDef, ast.Lambda)) and x is not fn_node:
+            for a_ in ast.walk(x.args):
+                if isinstance(a_, ast.arg):
+                    stores[a_.arg] = stores.get(a_.arg, 0) + 1
+    params = {a_.arg for a_ in ast.walk(fn_node.args) if isinstance(a_, ast.arg)}
+
+    def testlike(e):
+        if isinstance(e, ast.Compare):
+            return all(plain(x) for x in [e.left] + e.comparators)
+        if isinstance(e, ast.BoolOp):
+            return all(testlike(v) for v in e.values)
+        if isinstance(e, ast.UnaryOp) and isinstance(e.op, ast.Not):
+            return testlike(e.operand)
+        return isinstance(e, ast.Call) and isinstance(e.func, ast.Name) and e.func.id in _PURE_TEST_CALLS and e.func.id not in stores and not e.keywords and all(plain(x) for x in e.args)
+
+    def plain(e):
+        if isinstance(e, ast.Constant):
+            return True
+        if isinstance(e, ast.Name):
+            return stores.get(e.id, 0) == 0
+        if isinstance(e, ast.Tuple):
+            return all(plain(x) for x in e.elts)
+        return isinstance(e, ast.Call) and isinstance(e.func, ast.Name) and e.func.id in _PURE_TEST_CALLS and e.func.id not in stores and not e.keywords and all(plain(x) for x in e.args)
+
+    cands = {}
+    for x in ast.walk(fn_node):
+        if isinstance(x, ast.Assign) and len(x.targets) == 1 and isinstance(x.targets[0], ast.Name) and stores.get(x.targets[0].id) == 1 and x.targets[0].id not in params and testlike(x.value):
+            cands[x.targets[0].id] = x.value
+    if not cands:
+        return False
+    changed = [False]
+
+    def subst(e):
+        """replace candidate names in test position (through and / or / not)"""
+        if isinstance(e, ast.Name) and isinstance(e.ctx, ast.Load) and e.id in cands:
+            changed[0] = True
+            return ast.copy_location(_clone(cands[e.id]), e)
+        if isinstance(e, ast.BoolOp):
+            e.values = [subst(v) for v in e.values]
+        elif isinstance(e, ast.UnaryOp) and isinstance(e.op, ast.Not):
+            e.operand = subst(e.operand)
+        return e
+
+    for x in ast.walk(fn_node):
+        if isinstance(x, (ast.If, ast.While, ast.IfExp)):
+            x.test = subst(x.test)
+    if changed[0]:
+        ast.fix_missing_locations(fn_node)
+    return changed[0]
+
+
 def _counted_while_to_for(fn_node):
     """`n = N; while n > 0: BODY; n -= 1` (n used nowhere else) -> `for _ in range(N): BODY`, and
     `i = 0; while i < N: BODY; i += 1` (i not stored in BODY, not used outside the pair, N's names not stored in BODY)
@@ -2464,6 +2528,7 @@ def desugar(model):
             continue
         cw = any(isinstance(x, ast.While) for x in ast.walk(fn.node)) and _counted_while_to_for(fn.node)
         cw = (fn.parent is None and any(isinstance(x, ast.Call) and isinstance(x.func, (ast.Name, ast.Attribute)) and (x.func.id if isinstance(x.func, ast.Name) else x.func.attr) in ("defaultdict", "Counter") for x in ast.walk(fn.node)) and _defaultdict_to_get(fn.node)) or cw
+        cw = (fn.parent is None and _forward_test_locals(fn.node)) or cw
         new, ch = _desugar_body(fn.node.body)
         if ch or cw:
             fn.node.body = new
